@@ -102,6 +102,9 @@ structure StmtRow where
   failText : Bool            -- non-empty fail clause
   argCall : List Nat         -- 0 plain, 1 address-of, 2 dereference, 3 indexed
   ctorArgs : Nat             -- arguments in fmtdict.ctor_expr (0: not set)
+  cxxLocal : Bool            -- `cxx_local_var`: a C++ local made from the parsed C variable is what the library gets
+  ctorUsesC : Bool           -- fmtdict.ctor_expr mentions `{c_var}`
+  ctorUsesCxx : Bool         -- fmtdict.ctor_expr mentions `{cxx_var}`
   deriving Repr
 
 /-- one address per format unit. -/
@@ -123,6 +126,11 @@ def StmtRow.ownOk (r : StmtRow) : Bool :=
 /-- stricter: a resource that is handed on at the end is nevertheless released when a later step fails. -/
 def StmtRow.failStrict (r : StmtRow) : Bool :=
   r.acquires.all (fun x => r.relFail.contains x || x == .descrRef || x == .convObj)
+
+/-- the object returned for an argument is built from the variable the library was given: an entry that
+passes a C++ local (`cxx_local_var`) builds it from that local, never from the parsed C variable. -/
+def StmtRow.ctorVarOk (r : StmtRow) : Bool :=
+  r.ctorArgs == 0 || !r.cxxLocal || (r.ctorUsesCxx && !r.ctorUsesC)
 
 /-- an entry that creates the returned object has a `{py_var}` to return. -/
 def StmtRow.createdOk (r : StmtRow) : Bool :=
